@@ -65,8 +65,16 @@ def check_numeric(sg, an, orig_numbers, spglib_judge=True):
     return msgs
 
 
-def conc_check(sg, occ, vals, orig_order, supercell=False):
+def prev_occupation(sg, occ):
+    """another crystal of the same group for the analyzer-reuse history: one orbit on the last letter that is not occ's"""
+    ls = [l for l in S.letters_of(sg) if l != occ[0][0]] or S.letters_of(sg)
+    return [(ls[-1], 8)]
+
+
+def conc_check(sg, occ, vals, orig_order, supercell=False, reuse=False):
     from ase import Atoms
+    prev_occ = prev_occupation(sg, occ)
+    prev_vals = [[0.137 if v in S.WYCKOFF_SETS[sg][prev_occ[0][0]]["variables"] else 0.0 for v in "xyz"]]
     pos, nums = [], []
     for (letter, Z), v in zip(occ, vals):
         for p in S.orbit(sg, letter):
@@ -82,7 +90,13 @@ def conc_check(sg, occ, vals, orig_order, supercell=False):
         nums = list(at.get_atomic_numbers())
     msgs = []
     try:
-        an = SA.SymmetryAnalyzer(at, symmetry_tol=1e-4)
+        if reuse:
+            ppos = [[x % 1 for x in p.value(prev_vals[0])] for p in S.orbit(sg, prev_occ[0][0])]
+            an = SA.SymmetryAnalyzer(Atoms(numbers=[8] * len(ppos), scaled_positions=ppos, cell=np.array(S.std_lattice(sg), dtype=float), pbc=True), symmetry_tol=1e-4)
+            an.get_primitive_system(), an.get_wyckoff_letters_primitive(), an.get_equivalent_atoms_primitive(), an.get_wyckoff_letters_original()
+            an.set_system(at)
+        else:
+            an = SA.SymmetryAnalyzer(at, symmetry_tol=1e-4)
         if an.get_space_group_number() == sg:
             msgs = check_numeric(sg, an, nums)
     except Exception as ex:
@@ -90,10 +104,13 @@ def conc_check(sg, occ, vals, orig_order, supercell=False):
     if msgs:
         return msgs
     ds = S.concrete_dataset(sg, occ, vals, orig_order=orig_order, orig_supercell=supercell)
-    ses = S.RealSession([ds])
+    ses = S.RealSession(([S.concrete_dataset(sg, prev_occ, prev_vals)] if reuse else []) + [ds])
     with ses.active():
         try:
             an = ses.start()
+            if reuse:
+                an.get_primitive_system(), an.get_wyckoff_letters_primitive(), an.get_equivalent_atoms_primitive(), an.get_wyckoff_letters_original()
+                an = ses.switch(1)
             msgs = ["[spglib dataset scripted] " + m for m in check_numeric(sg, an, list(ds["orig_types"]), spglib_judge=False)]
         except Exception as ex:
             msgs = [f"[spglib dataset scripted] raised {type(ex).__name__}: {ex}"]
@@ -107,15 +124,20 @@ def make_fn(sg, occs):
     def fn(e):
         occ = e.pick(occs)
         n = sum(len(S.orbit(sg, l)) for l, _ in occ)
-        orig_order = None if n < 2 else e.pick([None, list(range(n))[::-1], "supercell", "interleaved"])
+        orig_order = None if n < 2 else e.pick([None, list(range(n))[::-1], "supercell", "interleaved"] + (["after-other"] if len(occ) == 1 else []))
         sup = {"supercell": True, "interleaved": "interleaved"}.get(orig_order if isinstance(orig_order, str) else None, False)
-        orig_order = None if sup else orig_order
+        reuse = orig_order == "after-other"
+        orig_order = None if (sup or reuse) else orig_order
         ds = S.make_dataset(e, sg, occ, orig_order=orig_order, orig_supercell=sup)
-        ses = S.Session([ds])
+        # reuse: the analyzer object has produced the primitive system and the letter mappings of another crystal before
+        ses = S.Session([S.make_dataset(e, sg, prev_occupation(sg, occ), tag="P"), ds] if reuse else [ds])
         exc = None
         with ses.active():
             try:
                 an = ses.start()
+                if reuse:
+                    an.get_primitive_system(), an.get_wyckoff_letters_primitive(), an.get_equivalent_atoms_primitive(), an.get_wyckoff_letters_original()
+                    an = ses.switch(1)
                 conv = an.get_conventional_system()
                 prim = an.get_primitive_system()
                 trip = {"original": (np.array(an.get_wyckoff_letters_original()), np.array(an.get_equivalent_atoms_original()), np.array(ds["orig_types"])),
@@ -126,9 +148,9 @@ def make_fn(sg, occs):
 
         def cex(env):
             vals = [[float(S.concrete(np.array([x], dtype=object), env)[0]) if isinstance(x, SReal) else float(x) for x in p] for p in ds["_params"]]
-            msgs = conc_check(sg, occ, vals, orig_order, sup)
+            msgs = conc_check(sg, occ, vals, orig_order, sup, reuse)
             return {"key": f"H12:sg{sg}:{cex.label}", "what": f"space group {sg}, occupation {occ}: " + "; ".join(msgs[:4]),
-                    "replay": {"kind": "primitive", "sg": sg, "occupation": [list(o) for o in occ], "params": vals, "orig_order": orig_order, "supercell": sup}, "reproduced": bool(msgs)}
+                    "replay": {"kind": "primitive", "sg": sg, "occupation": [list(o) for o in occ], "params": vals, "orig_order": orig_order, "supercell": sup, "reuse": reuse}, "reproduced": bool(msgs)}
 
         def mk(label):
             def c(env):
@@ -194,7 +216,9 @@ def make_fn(sg, occs):
                okc and all(hits.get(j, 0) == mult for j in range(npm)), mk("atoms-congruent"))
         cell_same = all(bool(a == b) for a, b in zip(np.ravel(cc_cell), np.ravel(ds.std_lattice)))
         e.post("conventional lattice is the standardized lattice", cell_same, mk("conv-lattice"))
-        if not sup:
+        if reuse:
+            e.reach("H12:reuse")
+        if not sup and not reuse:
             e.validate_with(lambda env: S.validate_against_real(sg, ds, env, S.tkey(np.asarray(an._best_transform["transformation"])), conv.get_scaled_positions(wrap=False),
                                                                  trip["conventional"][0], orig_order=orig_order))
         e.reach(f"H12:centring:{S.make_dataset.__name__ and __import__('spglib').get_spacegroup_type(RG.std_hall(sg)).international_short[0]}")
@@ -231,9 +255,9 @@ def main(tier, seed, only=None):
             rep.merge_stats(st, "H12")
             nocc += n
     if not only:
-        rep.require_reached(*[f"H12:centring:{c}" for c in "PACIFR"])
+        rep.require_reached("H12:reuse", "H12:supercell-original", *[f"H12:centring:{c}" for c in "PACIFR"])
     rep.bounds = {"space_groups": len(groups), "occupations": nocc, "orbits": "quick: <= 2 orbits for groups with <= 12 Wyckoff letters, 1 otherwise; thorough: <= 3 / 2",
-                  "original system": "the standardized cell with its atoms in standard or reversed order, or its 2x1x1 supercell (mappings consistent with that description)"}
+                  "original system": "the standardized cell with its atoms in standard or reversed order, or its 2x1x1 supercell listed cell by cell or with the copies of every atom interleaved (mappings consistent with that description); single-orbit crystals also after another crystal was analysed on the same analyzer object"}
     rep.stubs = ["SpglibContract dataset (mapping_to_primitive, std_mapping_to_primitive, crystallographic_orbits, wyckoffs consistent with the Hall-database orbits and centring classes)",
                  "StubAtoms / StubSystem", "numpy proxy (exact inverse)"]
     rep.assumptions = ["spglib's mappings are as documented", "centring translations of the standard setting = pure translations of the Hall-database group"]
@@ -242,5 +266,5 @@ def main(tier, seed, only=None):
 
 
 def replay(d):
-    msgs = conc_check(d["sg"], [tuple(o) for o in d["occupation"]], d["params"], d.get("orig_order"), d.get("supercell", False))
+    msgs = conc_check(d["sg"], [tuple(o) for o in d["occupation"]], d["params"], d.get("orig_order"), d.get("supercell", False), d.get("reuse", False))
     return bool(msgs), "; ".join(msgs[:6]) or "ok"
